@@ -105,12 +105,16 @@ def ancestors(spec, i):
     return seen
 
 
-def oracle(spec, run, pid=ID):
+def oracle(spec, run, pid=ID, failed_jobs=()):
     v = []
     inputs, outputs = local.node_io(spec, run.log)
     for i, nd in enumerate(spec["nodes"]):
         if nd["k"] == "entry":
             continue
+        if nd["k"] == "map_async" and failed_jobs:
+            # jobs are created in arrival order: the k-th arrival is job k; failed ones emit nothing
+            bad = {inv for (jid, inv) in failed_jobs if jid == i}
+            inputs[i] = [a for k_, a in enumerate(inputs[i]) if k_ not in bad]
         complete = not local.has_zip_below(spec, i) and nd["k"] != "zip"
         # a tick source (timed_window emits a batch every interval for ever) feeding a slower
         # delay/rate_limit builds an unbounded backlog: the bounded finish phase cannot drain it
@@ -133,8 +137,9 @@ def oracle(spec, run, pid=ID):
 def execute(case):
     spec = case["spec"]
     cm = {int(k): m for k, m in case["cmodes"].items()}
-    run = schedule.execute(case, consumer_modes=cm)
-    v = oracle(spec, run)
+    jf = {int(k): set(v_) for k, v_ in case.get("jobfaults", {}).items()}
+    run = schedule.execute(case, consumer_modes=cm, faults=jf)
+    v = oracle(spec, run, failed_jobs={(e[1], e[2]) for e in run.log.events if e[0] == "jx"})
     cls = classify(spec, run)
     classes = sorted(cls) + ["kind:" + k for k in {nd["k"] for nd in spec["nodes"]}] + \
         ["consumer:" + m for m in set(cm.values())]
@@ -171,8 +176,14 @@ def map_async_case(draw, tier="quick"):
         lambda t: [["job", 0, t[0], "!"], ["turn", t[1]], ["emit", t[2], t[3]]])
     steps = draw(st.lists(st.one_of(one, one, one, burst, race, race), min_size=4, max_size=20))
     acts = [a for stp in steps for a in stp][:60]
-    return {"spec": spec, "cmodes": {str(len(nodes) - 1): draw(st.sampled_from(["sync", "fut"]))},
+    case = {"spec": spec, "cmodes": {str(len(nodes) - 1): draw(st.sampled_from(["sync", "fut"]))},
             "actions": acts}
+    if draw(st.integers(0, 2)) == 0:
+        # some mapped coroutines fail (inside the job): map_async logs and goes on; every other
+        # element must still come out exactly once, in order
+        case["jobfaults"] = {str(len(nodes) - 2): sorted(draw(st.sets(
+            st.sampled_from([0, 2, 4, 6, 8]), min_size=1, max_size=2)))}
+    return case
 
 
 PARTS = [Part("schedules", case_strategy, execute, quick=1600, thorough=8000),
